@@ -274,18 +274,16 @@ Ltac not_register :=
 Lemma exec_quit_inv2 : forall s sg k a s', inv2 s -> exec_quit s sg k a = Ok s' -> inv2 s'.
 Proof.
   intros s sg k a s' Hi H. unfold exec_quit in H. msteps H.
-  eapply inv2_pset_same with (k := k) (p := p); eauto; try reflexivity. cbn [with_status p_status]. not_register.
+  match goal with |- inv2 (set_pool (pset _ ?p' _) _) => eapply (inv2_pset_same s _ k p p') end;
+    eauto; try reflexivity. cbn [with_status p_status]. not_register.
 Qed.
 
 Lemma exec_approve_inv2 : forall h s sg k s', inv2 s -> exec_approve h s sg k = Ok s' -> inv2 s'.
 Proof.
   intros h s sg k s' Hi H. unfold exec_approve in H. msteps H. bnorm.
   assert (Ht : p_total p = 0) by (eapply (i2_reg s Hi); eauto).
-  eapply inv2_pset_same with (k := k) (p := p); eauto; try reflexivity;
-    try (destruct (NEW_VERSION_BLOCK <=? h); reflexivity).
-  - cbn. auto.
-  - cbn [p_status]. not_register.
-  - destruct (NEW_VERSION_BLOCK <=? h); reflexivity.
+  match goal with |- inv2 (set_pool (pset _ ?p' _) _) => eapply (inv2_pset_same s _ k p p') end;
+    eauto; try reflexivity; try (destruct (NEW_VERSION_BLOCK <=? h); reflexivity).
 Qed.
 
 Lemma inv2_frame : forall s s', inv2 s -> fin s' = fin s -> s_infos s' = s_infos s ->
@@ -307,3 +305,80 @@ Proof. intros h s sg k a m s' Hi H. unfold exec_maxauth in H. msteps H. eapply i
 
 Lemma exec_white_inv2 : forall s sg k s', inv2 s -> exec_white s sg k = Ok s' -> inv2 s'.
 Proof. intros s sg k s' Hi H. unfold exec_white in H. msteps H. eapply inv2_frame; eauto. Qed.
+
+Lemma inv2_frame' : forall s s', inv2 s -> inv1 s' -> s_stakes s' = s_stakes s -> s_infos s' = s_infos s ->
+  s_pool s' = s_pool s -> s_par s' = s_par s -> inv2 s'.
+Proof.
+  intros s s' [H1 Ha Hp Hr Hn Hpar] H1' E2 Einf Epool Epar.
+  constructor; auto.
+  - intros sel. rewrite E2, Einf, Epool. apply Ha.
+  - intros k. rewrite total_of_tot, Einf, Epool. apply Hp.
+  - unfold reg_zero. rewrite Epool. exact Hr.
+  - now rewrite Epool.
+  - now rewrite Epar.
+Qed.
+
+Lemma exec_penalty_inv2 : forall s sg k a s', inv2 s -> a <> GOV -> exec_penalty s sg k a = Ok s' -> inv2 s'.
+Proof.
+  intros s sg k a s' Hi Ha H.
+  assert (I1 : inv1 s') by (eapply exec_penalty_inv1; eauto; apply Hi).
+  unfold exec_penalty in H. msteps H. eapply inv2_frame'; eauto.
+Qed.
+
+Lemma black_loop_inv2 : forall l s c s' c', inv2 s -> black_loop s l c = Ok (s', c') -> inv2 s'.
+Proof.
+  induction l as [|k r IH]; cbn [black_loop]; intros s c s' c' Hi H.
+  - inversion H; subst; auto.
+  - mstep H. eapply IH; [|exact H].
+    match goal with |- inv2 (set_black _ (set_pool (pset _ ?p' _) _)) => eapply (inv2_pset_same s _ k p p') end;
+      eauto; try reflexivity. cbn [with_status p_status]. not_register.
+Qed.
+
+Lemma ont_transfer_le : forall ont from to v ont', ont_transfer ont from to v = Ok ont' ->
+  v <= asum (fun _ x => x) ont.
+Proof.
+  intros ont from to v ont' H. unfold ont_transfer in H.
+  destruct (v =? 0) eqn:Ev; [apply N.eqb_eq in Ev; lia|].
+  destruct (ONT_TOTAL_SUPPLY <? v); [discriminate|].
+  destruct (nget from ont <? v) eqn:Eb; [discriminate|]. apply N.ltb_ge in Eb.
+  pose proof (nget_le_sum from ont). lia.
+Qed.
+
+Lemma stake_le_B : forall s a, inv1 s -> nget a (s_stakes s) <= B.
+Proof.
+  intros s a [Hb Hs]. pose proof (nget_le_sum a (s_stakes s)). pose proof (nget_le_sum GOV (s_ont s)).
+  unfold inv_balance, supply_ok, gov_balance, sum_stakes, ont_total, B in *. lia.
+Qed.
+
+Lemma exec_register_inv2 : forall h s sg k a ip pk tk s',
+  inv2 s -> sg <> GOV -> exec_register h s sg k a ip pk tk = Ok s' -> inv2 s'.
+Proof.
+  intros h s sg k a ip pk tk s' Hi Hsg H.
+  assert (I1 : inv1 s') by (eapply exec_register_inv1; eauto; apply Hi).
+  destruct Hi as [H1 Ha Hp Hr Hn Hpar].
+  unfold exec_register in H. msteps H.
+  match goal with H : match pget k (s_pool s) with _ => _ end = false |- _ =>
+    destruct (pget k (s_pool s)) eqn:Hg; [discriminate|] end.
+  match goal with H : ont_transfer _ _ _ _ = Ok _ |- _ => pose proof (ont_transfer_le _ _ _ _ _ H) as Hle end.
+  assert (Hip : ip <= B).
+  { destruct H1 as [_ Hs]. unfold supply_ok, ont_total, B in *.
+    destruct (g_selfgov (s_par s) <=? h); cbn [s_ont set_pool set_promise] in Hle; lia. }
+  pose proof (stake_le_B s a H1). pose proof B_small.
+  set (pnew := mkPV a (if g_selfgov (s_par s) <=? h then CandidateStatus else RegisterCandidateStatus) ip 0) in *.
+  match goal with |- inv2 ?S => set (s' := S) in * end.
+  assert (Epool : s_pool s' = pset k pnew (s_pool s)).
+  { subst s'. destruct (g_selfgov (s_par s) <=? h); reflexivity. }
+  assert (Einf : s_infos s' = s_infos s) by (subst s'; destruct (g_selfgov (s_par s) <=? h); reflexivity).
+  assert (Est : s_stakes s' = deposit_stake (s_stakes s) a ip) by (subst s'; destruct (g_selfgov (s_par s) <=? h); reflexivity).
+  assert (Epar : s_par s' = s_par s) by (subst s'; destruct (g_selfgov (s_par s) <=? h); reflexivity).
+  constructor; auto.
+  - intros sel. specialize (Ha sel). rewrite Est, Einf, Epool. rewrite L_deposit by lia.
+    pose proof (O_pset sel k pnew (s_pool s)) as Eo. rewrite Hg in Eo. cbn [oinit] in Eo.
+    subst pnew. cbn [p_owner p_init] in Eo. lia.
+  - intros k'. specialize (Hp k'). rewrite total_of_tot in *. rewrite Einf, Epool, tot_pset.
+    destruct (N.eqb_spec k' k) as [->|Hne]; [|exact Hp].
+    unfold tot in Hp. rewrite Hg in Hp. subst pnew. cbn. lia.
+  - unfold reg_zero. rewrite Epool. apply regz_pset; auto.
+  - rewrite Epool. now apply nodup_pset.
+  - now rewrite Epar.
+Qed.
